@@ -33,30 +33,40 @@ Definition cls_RuntimeError : N := 2.     (* bare `raise` with no active excepti
 Definition cls_AssertionError : N := 3.
 Definition cls_KeyError : N := 4.         (* D200: del sym_table[name] *)
 Definition cls_SyntaxError : N := 5.      (* only for skeletons Python's compiler rejects *)
+Definition cls_TypeError : N := 11.       (* D202: 'AIt' object is not iterable *)
 
 Inductive matcher :=
   | MAny                       (* except:                 *)
   | MCls (cs : list N)         (* except C: / except (C1, C2): *)
   | MVar (cs : list N) (k : N).   (* except HCk: / except (C1, HCk): — HCk is a global name that sw(k) rebinds *)
 
+(* how a for statement iterates: `for` / `async for` over an object with both protocols / `async for` over a
+   proper asynchronous iterator (only __aiter__/__anext__) *)
+Inductive fmode := FSync | FAsyncDual | FAsyncOnly.
+Definition fmode_async_only (m : fmode) : bool := match m with FAsyncOnly => true | _ => false end.
+
+(* The [a]/[m] arguments select the async form of a statement (`async with`, `async for`, `async def` + await).
+   Python gives the async forms the same control flow as the plain ones (the protocol methods are awaited);
+   eval.py implements them as wrappers (ast_asyncwith, ast_asyncfor, ast_asyncfunctiondef) around the plain
+   evaluators, so both evaluators below ignore the flag except for deviation D202. *)
 Inductive stmt :=
   | STrace (n : N)                                   (* t(n) *)
   | SPass
   | SProbe (k name : N)                              (* p(k, locals(), 'name'): is the handler name bound, to what *)
   | SIf (k : N) (body orelse : list stmt)            (* if c(k): *)
   | SWhile (k : N) (body orelse : list stmt)         (* while c(k): ... else: *)
-  | SFor (k : N) (body orelse : list stmt)           (* for _ in It(k): ... else: *)
+  | SFor (m : fmode) (k : N) (body orelse : list stmt)   (* [async] for _ in It(k) / AIt(k): ... else: *)
   | SBreak
   | SContinue
   | SReturn (v : option N)                           (* return / return v *)
   | SRaise (c : N) (cause : option N)                (* raise C / raise C from D *)
   | SReraise                                         (* raise *)
   | STry (body : list stmt) (handlers : list (matcher * option N * list stmt)) (orelse finalbody : list stmt)
-  | SWith (items : list N) (body : list stmt)        (* with M(k1), M(k2): *)
+  | SWith (a : bool) (items : list N) (body : list stmt)   (* [async] with M(k1), M(k2): *)
   | SAssert (k : N) (msg : option N)                 (* assert c(k) / assert c(k), ms(j) — ms(j) is a message site *)
-  | SFunc (k : N) (body : list stmt)                 (* def g(): body ; fr(k, g())  — a function boundary *)
+  | SFunc (a : bool) (k : N) (body : list stmt)      (* [async] def g(): body ; fr(k, [await] g())  — a function boundary *)
   | SSwitch (k : N)                                  (* sw(k): rebinds the global class name HCk *)
-  | SWithS (k : N) (xbody body : list stmt).         (* with MSk(): body — a manager class written in the script whose
+  | SWithS (a : bool) (k : N) (xbody body : list stmt).   (* [async] with MSk(): body — a manager class written in the script whose
                                                         __exit__ runs xbody as a function body (its returned value
                                                         decides suppression) *)
 
@@ -68,13 +78,13 @@ Fixpoint supp (inl : bool) (s : stmt) {struct s} : bool :=
   match s with
   | SBreak | SContinue => inl
   | SIf _ b o => forallb (supp inl) b && forallb (supp inl) o
-  | SWhile _ b o | SFor _ b o => forallb (supp true) b && forallb (supp inl) o
+  | SWhile _ b o | SFor _ _ b o => forallb (supp true) b && forallb (supp inl) o
   | STry b hs o f =>
       forallb (supp inl) b && forallb (fun hd : handler => forallb (supp inl) (snd hd)) hs
       && forallb (supp inl) o && forallb (supp inl) f
-  | SWith _ b => forallb (supp inl) b
-  | SFunc _ b => forallb (supp false) b
-  | SWithS _ x b => forallb (supp false) x && forallb (supp inl) b
+  | SWith _ _ b => forallb (supp inl) b
+  | SFunc _ _ b => forallb (supp false) b
+  | SWithS _ _ x b => forallb (supp false) x && forallb (supp inl) b
   | _ => true
   end.
 Definition supported (body : list stmt) : bool := forallb (supp false) body.
@@ -116,11 +126,12 @@ Record deviations := {
   d9_with_flat : bool;           (* D9: all items of one `with` handled as one block instead of nested *)
   d10_base_uncaught : bool;      (* D10: `except Exception` in ast_try / ast_with *)
   d200_unbind_keyerror : bool;   (* D200: `del sym_table[name]` raises KeyError if already unbound *)
-  d201_enter_in_try : bool       (* D201: __enter__ runs inside the try whose handler calls __exit__ *)
+  d201_enter_in_try : bool;      (* D201: __enter__ runs inside the try whose handler calls __exit__ *)
+  d202_asyncfor_sync : bool      (* D202: ast_asyncfor iterates with the synchronous protocol (`for x in obj`) *)
 }.
 Definition no_dev : deviations :=
   {| d8_else_drops_jump := false; d9_with_flat := false; d10_base_uncaught := false;
-     d200_unbind_keyerror := false; d201_enter_in_try := false |}.
+     d200_unbind_keyerror := false; d201_enter_in_try := false; d202_asyncfor_sync := false |}.
 Definition all_off (c : deviations) : Prop := c = no_dev.
 
 (* what a pyscript statement evaluator returns / raises *)
@@ -451,23 +462,26 @@ Section Exec.
           | (false, st1) => ps_block (rec cur) o st1
           end
       | SWhile k b o => ps_loop (d8_else_drops_jump cfg) (q_cond k) (rec cur) lf b o st
-      | SFor k b o => ps_loop (d8_else_drops_jump cfg) (q_next k) (rec cur) lf b o (q_iter k st)
+      | SFor m k b o =>
+          (* ast_asyncfor = ast_for: `for loop_var in await self.aeval(arg.iter)` needs __iter__ *)
+          if d202_asyncfor_sync cfg && fmode_async_only m then (q_iter k st, PX (exc_of cls_TypeError))
+          else ps_loop (d8_else_drops_jump cfg) (q_next k) (rec cur) lf b o (q_iter k st)
       | SBreak => (st, PV VBreak)
       | SContinue => (st, PV VContinue)
       | SReturn v => (st, PV (VReturn v))
       | SRaise c cause => (st, PX (mkExc c cause))
       | SReraise => (st, PX (reraise cur))
       | STry b hs o f => ps_try rec cur b hs o f st
-      | SWith items b =>
+      | SWith _ items b =>
           if d9_with_flat cfg then ps_with_flat (rec cur) items b st else ps_with_nested (rec cur) items b st
       | SAssert k msg =>
           match q_cond k st with
           | (true, st1) => (st1, PV VNone)
           | (false, st1) => match assert_fail msg st1 with (st2, e) => (st2, PX e) end
           end
-      | SFunc k b => ps_call (rec cur) k b st
+      | SFunc _ k b => ps_call (rec cur) k b st
       | SSwitch k => (emit (EvSw k) (set_h (h_sw h k (s_h st)) st), PV VNone)
-      | SWithS k x b => ps_withS rec cur k x b st
+      | SWithS _ k x b => ps_withS rec cur k x b st
       end.
 
     Fixpoint ps_stmt (fuel : nat) (cur : option exc) (s : stmt) (st : state) : state * pres :=
@@ -635,22 +649,22 @@ Section Exec.
         | (false, st1) => py_block (rec cur) o st1
         end
     | SWhile k b o => py_loop (q_cond k) (rec cur) lf b o st
-    | SFor k b o => py_loop (q_next k) (rec cur) lf b o (q_iter k st)
+    | SFor _ k b o => py_loop (q_next k) (rec cur) lf b o (q_iter k st)
     | SBreak => (st, Brk)
     | SContinue => (st, Cont)
     | SReturn v => (st, Ret v)
     | SRaise c cause => (st, Exc (mkExc c cause))
     | SReraise => (st, Exc (reraise cur))
     | STry b hs o f => py_try rec cur b hs o f st
-    | SWith items b => py_with (rec cur) items b st
+    | SWith _ items b => py_with (rec cur) items b st
     | SAssert k msg =>
         match q_cond k st with
         | (true, st1) => (st1, Normal)
         | (false, st1) => match assert_fail msg st1 with (st2, e) => (st2, Exc e) end
         end
-    | SFunc k b => py_call (rec cur) k b st
+    | SFunc _ k b => py_call (rec cur) k b st
     | SSwitch k => (emit (EvSw k) (set_h (h_sw h k (s_h st)) st), Normal)
-    | SWithS k x b => py_withS rec cur k x b st
+    | SWithS _ k x b => py_withS rec cur k x b st
     end.
 
   Fixpoint py_stmt (fuel : nat) (cur : option exc) (s : stmt) (st : state) : state * outcome :=
